@@ -215,9 +215,12 @@ macro_rules! ks_backend {
             let mut source_xa = Source::new(seed32(c.seed, 3));
             let dirty = |scratch: &mut ScratchOwned<BE>| {
                 if c.dirty {
-                    let pat: [u8; 8] = 1234567.0f64.to_le_bytes();
-                    for (i, x) in scratch.borrow().data.iter_mut().enumerate() {
-                        *x = pat[i & 7];
+                    // plausible-magnitude f64 words (never NaN/inf), different in every slot
+                    let data = &mut scratch.borrow().data;
+                    let words = data.len() / 8;
+                    for w in 0..words {
+                        let v: f64 = (((w as u64).wrapping_mul(2654435761) % 1000003) as f64 - 500001.0) * 977.0;
+                        data[8 * w..8 * w + 8].copy_from_slice(&v.to_le_bytes());
                     }
                 } else {
                     scratch.borrow().data.fill(0);
